@@ -28,46 +28,34 @@ Theorem c13_literal_exact : forall (p rest : str) (c : ascii), is_sep c = true -
 Proof. exact literal_exact. Qed.
 Print Assumptions c13_literal_exact.
 
-(** The FETCH assembly (responseParts joined, then all literal data): for every
-    sequence of contributions made of single tokens in which only the LAST
-    contribution may carry a literal ([classify_plan = None]), the line sent
-    is well-formed and the strict client reads back exactly the contributed
-    (item, value) pairs, in order — each item together with its own value. *)
+(** The FETCH assembly (since the F14 fix every literal-valued item is one
+    response part "name {n}CRLF data"): for EVERY non-empty sequence of
+    contributions made of single tokens — any number of literal-valued items
+    in any position — the line sent is well-formed and the strict client reads
+    back exactly the contributed (item, value) pairs, in order: each item
+    together with its own value. *)
 Theorem c13_fetch_assembly_ok : forall (seq : nat) (plan : list out),
-  plan <> [] -> forallb out_okb plan = true -> classify_plan plan = None ->
+  plan <> [] -> forallb out_okb plan = true ->
   wf_stream (send (fetch_line seq plan)) = true
   /\ fetch_pairs (send (fetch_line seq plan)) = Some (dec seq, map pair_of plan).
 Proof. exact fetch_assembly_ok. Qed.
 Print Assumptions c13_fetch_assembly_ok.
 
-(** [classify_plan] has exactly one finding class. *)
-Theorem c13_classify_plan_total : forall plan : list out,
-  classify_plan plan = Some multi_literal \/ classify_plan plan = None.
-Proof. exact classify_plan_some. Qed.
-Print Assumptions c13_classify_plan_total.
+(** regression (defect F14, repaired): the lines the old two-accumulator
+    assembly produced for two literal-valued items, for HEADER.FIELDS after a
+    numbered section (literal overwritten) and for a literal section followed by
+    "BODY[2] NIL" cannot be paired; the repaired assembly pairs all three. *)
+Example c13_old_assembly_unreadable :
+  fetch_pairs (send old_two_literals) = None /\ fetch_pairs (send old_fields_overwrite) = None
+  /\ option_map snd (fetch_pairs (send old_literal_then_inline))
+     <> Some (map pair_of w_literal_then_inline).
+Proof. exact old_assembly_unreadable. Qed.
 
-(** Defect F14 (confirmed): two literal-valued items in one FETCH — the
-    names come first, all literals after them; the strict client cannot pair
-    them. *)
-Theorem c13_refuted_multi_literal :
-  exists plan, classify_plan plan = Some multi_literal /\ forallb out_okb plan = true
-               /\ fetch_pairs (send (fetch_line 1 plan)) = None.
-Proof. exact refuted_multi_literal. Qed.
-Print Assumptions c13_refuted_multi_literal.
-
-(** Same class, HEADER.FIELDS overwriting the literal of an earlier section. *)
-Theorem c13_refuted_fields_overwrite :
-  classify_plan w_fields_overwrite = Some multi_literal /\ forallb out_okb w_fields_overwrite = true
-  /\ fetch_pairs (send (fetch_line 1 w_fields_overwrite)) = None.
-Proof. exact refuted_fields_overwrite. Qed.
-Print Assumptions c13_refuted_fields_overwrite.
-
-(** Same class, a literal section followed by an inline "BODY[2] NIL". *)
-Theorem c13_refuted_literal_then_inline :
-  classify_plan w_literal_then_inline = Some multi_literal /\ forallb out_okb w_literal_then_inline = true
-  /\ fetch_pairs (send (fetch_line 1 w_literal_then_inline)) <> Some (dec 1, map pair_of w_literal_then_inline).
-Proof. exact refuted_literal_then_inline. Qed.
-Print Assumptions c13_refuted_literal_then_inline.
+Example c13_new_assembly_examples :
+  fetch_pairs (send (fetch_line 1 w_two_literals)) = Some (dec 1, map pair_of w_two_literals)
+  /\ fetch_pairs (send (fetch_line 1 w_fields_after_section)) = Some (dec 1, map pair_of w_fields_after_section)
+  /\ fetch_pairs (send (fetch_line 1 w_literal_then_inline)) = Some (dec 1, map pair_of w_literal_then_inline).
+Proof. exact new_assembly_examples. Qed.
 
 (** FLAGS value: a stored flag string without parenthesis/quote/brace/CR/LF
     gives one well-formed token "(flags)". *)
@@ -83,33 +71,37 @@ Theorem c13_refuted_flag_atom :
 Proof. exact refuted_flag_atom. Qed.
 Print Assumptions c13_refuted_flag_atom.
 
-(** LIST / LSUB lines for every mailbox name without double quote, backslash,
-    CR, LF: well-formed, and the quoted name decodes to the stored name. *)
+(** LIST / LSUB / STATUS lines (since the F15 fix the name goes through
+    utils.QuoteString): for EVERY mailbox name without CR/LF — double quotes,
+    backslashes, braces, parentheses, 8-bit included — the line is well-formed,
+    the quoted name is one token and decodes to the stored name. (A name with
+    CR or LF cannot be created: command lines are split at white space.) *)
 Theorem c13_list_line_ok : forall kw attrs name : str,
-  forallb plain_byte kw = true -> forallb flag_byte attrs = true -> classify_name name = None ->
-  wf_stream (send (list_line kw attrs name)) = true /\ unquote (DQ :: name ++ [DQ]) = Some name.
+  forallb plain_byte kw = true -> forallb flag_byte attrs = true -> clean name = true ->
+  wf_stream (send (list_line kw attrs name)) = true
+  /\ tokb (quote_string name) = true /\ unquote (quote_string name) = Some name.
 Proof. exact list_line_ok. Qed.
 Print Assumptions c13_list_line_ok.
 
 Theorem c13_status_line_ok : forall (name : str) (items : list (str * nat)),
-  classify_name name = None -> Forall (fun kv => forallb plain_byte (fst kv) = true) items ->
+  clean name = true -> Forall (fun kv => forallb plain_byte (fst kv) = true) items ->
   wf_stream (send (status_line name items)) = true.
 Proof. exact status_line_ok. Qed.
 Print Assumptions c13_status_line_ok.
 
-(** Defect F15 (confirmed): names are interpolated between quotes unescaped. *)
-Theorem c13_refuted_name_unescaped :
-  exists name, classify_name name = Some name_unescaped
-               /\ wf_stream (send (list_line (S_ "LIST") (S_ "\Unmarked") name)) = false
-               /\ wf_stream (send (status_line name [(S_ "MESSAGES", 0)])) = false.
-Proof. exact refuted_name_unescaped. Qed.
-Print Assumptions c13_refuted_name_unescaped.
+(** regression (defect F15, repaired): the unescaped lines are malformed, the
+    repaired ones are not *)
+Example c13_old_name_lines_malformed :
+  wf_stream (send (S_ "* LIST (\Unmarked) ""/"" ""a""b""")) = false
+  /\ wf_stream (send (S_ "* LIST (\Unmarked) ""/"" ""c\d""")) = false
+  /\ wf_stream (send (S_ "* STATUS ""a""b"" (MESSAGES 0)")) = false.
+Proof. exact old_name_lines_malformed. Qed.
 
-Theorem c13_refuted_name_backslash :
-  classify_name (S_ "c\d") = Some name_unescaped
-  /\ wf_stream (send (list_line (S_ "LIST") (S_ "\Unmarked") (S_ "c\d"))) = false.
-Proof. exact refuted_name_backslash. Qed.
-Print Assumptions c13_refuted_name_backslash.
+Example c13_new_name_lines_examples :
+  wf_stream (send (list_line (S_ "LIST") (S_ "\Unmarked") (S_ "a""b"))) = true
+  /\ wf_stream (send (list_line (S_ "LIST") (S_ "\Unmarked") (S_ "c\d"))) = true
+  /\ wf_stream (send (status_line (S_ "a""b") [(S_ "MESSAGES", 0)])) = true.
+Proof. exact new_name_lines_examples. Qed.
 
 (** BuildEnvelope: for EVERY raw message whose ten envelope header values carry
     no bare CR ([classify_headers = None]; LF cannot occur, extractHeader
@@ -128,6 +120,12 @@ Theorem c13_address_list_wf : forall a r : str,
   clean a = true -> parse_address_list a = Some r -> tokp r.
 Proof. exact parse_address_list_tok. Qed.
 Print Assumptions c13_address_list_wf.
+
+(** regression (fix e2cd37d): a ">" in front of the "<" used to panic; it is now
+    taken as an address without display name *)
+Example c13_address_stray_gt :
+  parse_address_list (S_ ">a<") = Some (S_ "((NIL NIL "">a<"" NIL))").
+Proof. vm_compute. reflexivity. Qed.
 
 (** Confirmed: QuoteOrNIL does not handle CR; "Subject: a<CR>b" reaches the
     ENVELOPE quoted string. *)
@@ -158,6 +156,11 @@ Theorem c13_refuted_item_suppressed_header :
 Proof. exact refuted_item_suppressed_header. Qed.
 Print Assumptions c13_refuted_item_suppressed_header.
 
+Theorem c13_refuted_item_suppressed_twice :
+  unanswered [I_Sec true S_Header None; I_Sec true S_Header (Some (3, 5))] item_suppressed.
+Proof. exact refuted_item_suppressed_twice. Qed.
+Print Assumptions c13_refuted_item_suppressed_twice.
+
 Theorem c13_refuted_rfc822_renamed : unanswered [I_Simple (S_ "RFC822")] rfc822_renamed.
 Proof. exact refuted_rfc822_renamed. Qed.
 Print Assumptions c13_refuted_rfc822_renamed.
@@ -172,7 +175,7 @@ Example c13_answered_example :
               I_Sec true (S_Fields [S_ "Subject"; S_ "to"]) None] in
   classify_req req = None
   /\ match fetch_plan (fetch_items (render_req req)) w_env with
-     | Some plan => answered req plan = true /\ classify_plan plan = None /\ forallb out_okb plan = true
+     | Some plan => answered req plan = true /\ forallb out_okb plan = true
      | None => False
      end.
 Proof. exact answered_example. Qed.
@@ -181,5 +184,5 @@ Proof. exact answered_example. Qed.
 Example c13_assembly_example :
   let plan := [Inline (S_ "UID") (dec 7); Inline (S_ "FLAGS") (S_ "(\Seen)");
                Lit (S_ "BODY[HEADER.FIELDS (DATE FROM)]") (S_ "* 1 FETCH (BODY[] {3}")] in
-  forallb out_okb plan = true /\ classify_plan plan = None.
-Proof. vm_compute. split; reflexivity. Qed.
+  forallb out_okb plan = true.
+Proof. vm_compute. reflexivity. Qed.
